@@ -9,42 +9,49 @@ Require V.MQ.MqModel V.MQ.MqProofs V.MQ.MqProofsRt.
    reconstruction) applied to the output of the block encoder (EncodeLayered, all 3*planes-2
    passes) returns the block.  fb = SetNMSEDecFractionalBits; coefficients are multiples of 2^fb
    with |v| <= 2^30.
-   Status: PARTIAL.  Proved (T1ProofsCompThm / T1ProofsTermall, unbounded in block size,
-   orientation, coefficients, fb): every style without LAZY and PTERM - i.e. any combination of
-   RESET, TERMALL, VSC, SEGSYM (16 of the 64 combinations, the default style 0 among them) - and
-   additionally PTERM without LAZY / TERMALL when fb >= 1 (t1_bytes_roundtrip_partial).
-   Missing for the other styles are two facts about the coders of the mq area, stated below as
-   mq_erterm_segment_statement (a segment closed by ErtermEnc decodes to its decisions) and
-   raw_segment_statement (a bypass segment decodes to its bits), plus the segment bookkeeping of
-   the lazy mode built on them.  Below the full statement is decided by computation on bounded
-   domains for all 64 styles. *)
+   Status: PARTIAL - 48 of the 64 style combinations (everything except LAZY without TERMALL).
+   Proved, unbounded in block size, orientation, coefficients, fb (T1ProofsCompThm, T1ProofsTermall,
+   T1ProofsPterm, T1ProofsLazyTerm; summary theorems t1_bytes_roundtrip_unconditional /
+   t1_bytes_roundtrip_covered):
+     - no LAZY, no TERMALL: one MQ codeword (RESET, VSC, SEGSYM, PTERM in any combination);
+     - TERMALL, with or without LAZY: one segment per pass, MQ codeword or raw bits.
+   With PTERM on a terminated pass (TERMALL+PTERM, or PTERM with fb = 0) the theorems carry the
+   hypothesis that EncodeLayered's output is not empty: GetBuffer does not count a final byte
+   0xFF, so a codeword closed by ErtermEnc can be empty for all the MQ invariants say, and the
+   decoder rejects empty data (no such stream exists among all decision sequences of length <= 6
+   over the T1 start contexts; the harness found none).
+   Missing: LAZY without TERMALL (16 combinations): codeword segments spanning several passes
+   (the MQ codeword down to bit-plane maxBitplane-3, then raw SPP+MRP segments alternating with
+   cleanup codewords), the Rate values of the non-terminated passes in between
+   (actual + 3 / + BypassExtraBytes, clipped by normalizePassRates) and the decoder's segment
+   look-ahead.  The ingredients are available (mq_passes_future, restart_segment, raw_pass_step,
+   dec_passes_fsim); the bookkeeping is not done.  Below the full statement is decided by
+   computation on bounded domains for all 64 styles. *)
 Definition t1_roundtrip_statement : Prop :=
   forall (wn hn : nat) (orient style fb : Z) (data : list Z),
     length data = (wn * hn)%nat -> (forall v, In v data -> Z.abs v <= 2 ^ 30) -> 0 <= fb ->
     (forall v, In v data -> exists c, v = c * 2 ^ fb) ->
     t1_roundtrip wn hn orient style fb data = Ok data.
 
-(* ---------- the two coder facts the remaining styles need (NOT proved) ---------- *)
-(* PTERM on a terminated pass: the codeword closed by ErtermEnc (from fresh registers and
-   contexts cx) is decoded by a decoder started on it with the same contexts; the shape facts
-   are what the restart argument (T1ProofsRestart) and the Rate bookkeeping need. *)
+(* ---------- the two coder facts the PTERM / LAZY styles need ----------
+   Both are now theorems of the mq area (MqProofsSeg.mq_erterm_segment_t1, raw_segment_t1); the
+   first versions written here were wrong and are refuted there: a codeword closed by ErtermEnc
+   CAN be empty as far as GetBuffer is concerned (its last byte 0xFF is not counted; cx = [0],
+   l = []), and a bypass segment needs a byte before it in the buffer (bp >= 1). *)
 Definition mq_erterm_segment_statement : Prop :=
   forall (cx : list Z) (l : list (Z * Z)),
     Forall MqProofs.cx_ok cx -> Forall (MqProofsRt.decision_ok (zlen cx)) l ->
     let en := MqModel.enc_encode_list (MqModel.enc_new_cx cx) l in
     MqModel.enc_erterm_panics en = false /\
     fst (MqModel.enc_erterm_loop 4 (11 - MqModel.e_ct en + 1) en) <= 0 /\
-    exists seg, rev (MqModel.e_pre (MqModel.enc_erterm en)) = 0 :: seg /\ seg <> [] /\ last seg 0 <> 255 /\
+    exists seg, rev (MqModel.e_pre (MqModel.enc_erterm en)) = 0 :: seg /\ last seg 0 <> 255 /\
       exists dd d', MqModel.dec_new_cx seg cx = Ok dd /\
         MqModel.dec_decode_list dd (map snd l) = Ok (d', map fst l) /\
         MqModel.d_cx d' = MqModel.e_cx en.
 
-(* LAZY: the bytes BypassInitEnc / BypassEncode* / BypassFlushEnc append to the buffer (the
-   flush may drop a trailing FF or FF 7F again) are read back bit for bit by the raw decoder
-   (whose sentinel supplies the dropped 1-bits) *)
 Definition raw_segment_statement : Prop :=
   forall (e : MqModel.enc) (bits : list Z) (erterm : bool),
-    Forall (fun b => b = 0 \/ b = 1) bits -> hd 0 (MqModel.e_pre e) <> 255 ->
+    Forall (fun b => b = 0 \/ b = 1) bits -> MqModel.e_pre e <> [] -> hd 0 (MqModel.e_pre e) <> 255 ->
     let e2 := MqModel.enc_bypass_flush (fold_left MqModel.enc_bypass_encode bits (MqModel.enc_bypass_init e)) erterm in
     exists seg r', MqModel.e_pre e2 = rev seg ++ MqModel.e_pre e /\
       MqModel.raw_decode_n (length bits) (MqModel.raw_new seg) = Ok (r', bits).
